@@ -148,20 +148,291 @@ pub fn roundtrip_f64(bits: u64) -> Result<(), &'static str> {
 pub mod rt {
     use super::*;
     crate::harnesses! {
-        /// every normal f32 power of two (the shorter-interval case of Dragonbox), both signs: write -> parse round trip.
+        /// f32 powers of two with biased exponent in 1..=15 (symbolic), both signs: write -> parse round trip.
         /// @prop C02 C08
-        /// @feat default radix_format
-        /// @bound f32 powers of two (mantissa field zero), all 254 normal exponents, both signs
+        /// @tier thorough
+        /// @feat default
+        /// @bound f32 powers of two, biased exponent 1..=15
         /// @fn lexical-write-float::algorithm::compute_nearest_shorter[f32]
         /// @fn lexical-write-float::algorithm::to_decimal
-        /// @timeout 1800
+        /// @mem 12
+        /// @timeout 3600
         #[cfg_attr(kani, kani::unwind(24))]
-        fn roundtrip_pow2_f32() {
+        fn roundtrip_pow2_f32_e1() {
             let e: u32 = any();
             let neg: bool = any();
-            assume(e >= 1 && e <= 254);
-            let bits = ((neg as u32) << 31) | (e << 23);
-            let r = roundtrip_f32(bits);
+            assume(e >= 1 && e <= 15);
+            let r = roundtrip_f32(((neg as u32) << 31) | (e << 23));
+            vcheck!(r.is_ok(), "f32 power of two: write -> parse returns the identical bits");
+        }
+
+        /// f32 powers of two with biased exponent in 16..=31 (symbolic), both signs: write -> parse round trip.
+        /// @prop C02 C08
+        /// @tier thorough
+        /// @feat default
+        /// @bound f32 powers of two, biased exponent 16..=31
+        /// @fn lexical-write-float::algorithm::compute_nearest_shorter[f32]
+        /// @fn lexical-write-float::algorithm::to_decimal
+        /// @mem 12
+        /// @timeout 3600
+        #[cfg_attr(kani, kani::unwind(24))]
+        fn roundtrip_pow2_f32_e16() {
+            let e: u32 = any();
+            let neg: bool = any();
+            assume(e >= 16 && e <= 31);
+            let r = roundtrip_f32(((neg as u32) << 31) | (e << 23));
+            vcheck!(r.is_ok(), "f32 power of two: write -> parse returns the identical bits");
+        }
+
+        /// f32 powers of two with biased exponent in 32..=47 (symbolic), both signs: write -> parse round trip.
+        /// @prop C02 C08
+        /// @tier thorough
+        /// @feat default
+        /// @bound f32 powers of two, biased exponent 32..=47
+        /// @fn lexical-write-float::algorithm::compute_nearest_shorter[f32]
+        /// @fn lexical-write-float::algorithm::to_decimal
+        /// @mem 12
+        /// @timeout 3600
+        #[cfg_attr(kani, kani::unwind(24))]
+        fn roundtrip_pow2_f32_e32() {
+            let e: u32 = any();
+            let neg: bool = any();
+            assume(e >= 32 && e <= 47);
+            let r = roundtrip_f32(((neg as u32) << 31) | (e << 23));
+            vcheck!(r.is_ok(), "f32 power of two: write -> parse returns the identical bits");
+        }
+
+        /// f32 powers of two with biased exponent in 48..=63 (symbolic), both signs: write -> parse round trip.
+        /// @prop C02 C08
+        /// @tier thorough
+        /// @feat default
+        /// @bound f32 powers of two, biased exponent 48..=63
+        /// @fn lexical-write-float::algorithm::compute_nearest_shorter[f32]
+        /// @fn lexical-write-float::algorithm::to_decimal
+        /// @mem 12
+        /// @timeout 3600
+        #[cfg_attr(kani, kani::unwind(24))]
+        fn roundtrip_pow2_f32_e48() {
+            let e: u32 = any();
+            let neg: bool = any();
+            assume(e >= 48 && e <= 63);
+            let r = roundtrip_f32(((neg as u32) << 31) | (e << 23));
+            vcheck!(r.is_ok(), "f32 power of two: write -> parse returns the identical bits");
+        }
+
+        /// f32 powers of two with biased exponent in 64..=79 (symbolic), both signs: write -> parse round trip.
+        /// @prop C02 C08
+        /// @tier thorough
+        /// @feat default
+        /// @bound f32 powers of two, biased exponent 64..=79
+        /// @fn lexical-write-float::algorithm::compute_nearest_shorter[f32]
+        /// @fn lexical-write-float::algorithm::to_decimal
+        /// @mem 12
+        /// @timeout 3600
+        #[cfg_attr(kani, kani::unwind(24))]
+        fn roundtrip_pow2_f32_e64() {
+            let e: u32 = any();
+            let neg: bool = any();
+            assume(e >= 64 && e <= 79);
+            let r = roundtrip_f32(((neg as u32) << 31) | (e << 23));
+            vcheck!(r.is_ok(), "f32 power of two: write -> parse returns the identical bits");
+        }
+
+        /// f32 powers of two with biased exponent in 80..=95 (symbolic), both signs: write -> parse round trip.
+        /// @prop C02 C08
+        /// @tier thorough
+        /// @feat default
+        /// @bound f32 powers of two, biased exponent 80..=95
+        /// @fn lexical-write-float::algorithm::compute_nearest_shorter[f32]
+        /// @fn lexical-write-float::algorithm::to_decimal
+        /// @mem 12
+        /// @timeout 3600
+        #[cfg_attr(kani, kani::unwind(24))]
+        fn roundtrip_pow2_f32_e80() {
+            let e: u32 = any();
+            let neg: bool = any();
+            assume(e >= 80 && e <= 95);
+            let r = roundtrip_f32(((neg as u32) << 31) | (e << 23));
+            vcheck!(r.is_ok(), "f32 power of two: write -> parse returns the identical bits");
+        }
+
+        /// f32 powers of two with biased exponent in 96..=111 (symbolic), both signs: write -> parse round trip.
+        /// @prop C02 C08
+        /// @tier thorough
+        /// @feat default
+        /// @bound f32 powers of two, biased exponent 96..=111
+        /// @fn lexical-write-float::algorithm::compute_nearest_shorter[f32]
+        /// @fn lexical-write-float::algorithm::to_decimal
+        /// @mem 12
+        /// @timeout 3600
+        #[cfg_attr(kani, kani::unwind(24))]
+        fn roundtrip_pow2_f32_e96() {
+            let e: u32 = any();
+            let neg: bool = any();
+            assume(e >= 96 && e <= 111);
+            let r = roundtrip_f32(((neg as u32) << 31) | (e << 23));
+            vcheck!(r.is_ok(), "f32 power of two: write -> parse returns the identical bits");
+        }
+
+        /// f32 powers of two with biased exponent in 112..=127 (symbolic), both signs: write -> parse round trip.
+        /// @prop C02 C08
+        /// @tier thorough
+        /// @feat default
+        /// @bound f32 powers of two, biased exponent 112..=127
+        /// @fn lexical-write-float::algorithm::compute_nearest_shorter[f32]
+        /// @fn lexical-write-float::algorithm::to_decimal
+        /// @mem 12
+        /// @timeout 3600
+        #[cfg_attr(kani, kani::unwind(24))]
+        fn roundtrip_pow2_f32_e112() {
+            let e: u32 = any();
+            let neg: bool = any();
+            assume(e >= 112 && e <= 127);
+            let r = roundtrip_f32(((neg as u32) << 31) | (e << 23));
+            vcheck!(r.is_ok(), "f32 power of two: write -> parse returns the identical bits");
+        }
+
+        /// f32 powers of two with biased exponent in 128..=143 (symbolic), both signs: write -> parse round trip.
+        /// @prop C02 C08
+        /// @tier thorough
+        /// @feat default
+        /// @bound f32 powers of two, biased exponent 128..=143
+        /// @fn lexical-write-float::algorithm::compute_nearest_shorter[f32]
+        /// @fn lexical-write-float::algorithm::to_decimal
+        /// @mem 12
+        /// @timeout 3600
+        #[cfg_attr(kani, kani::unwind(24))]
+        fn roundtrip_pow2_f32_e128() {
+            let e: u32 = any();
+            let neg: bool = any();
+            assume(e >= 128 && e <= 143);
+            let r = roundtrip_f32(((neg as u32) << 31) | (e << 23));
+            vcheck!(r.is_ok(), "f32 power of two: write -> parse returns the identical bits");
+        }
+
+        /// f32 powers of two with biased exponent in 144..=159 (symbolic), both signs: write -> parse round trip.
+        /// @prop C02 C08
+        /// @tier thorough
+        /// @feat default
+        /// @bound f32 powers of two, biased exponent 144..=159
+        /// @fn lexical-write-float::algorithm::compute_nearest_shorter[f32]
+        /// @fn lexical-write-float::algorithm::to_decimal
+        /// @mem 12
+        /// @timeout 3600
+        #[cfg_attr(kani, kani::unwind(24))]
+        fn roundtrip_pow2_f32_e144() {
+            let e: u32 = any();
+            let neg: bool = any();
+            assume(e >= 144 && e <= 159);
+            let r = roundtrip_f32(((neg as u32) << 31) | (e << 23));
+            vcheck!(r.is_ok(), "f32 power of two: write -> parse returns the identical bits");
+        }
+
+        /// f32 powers of two with biased exponent in 160..=175 (symbolic), both signs: write -> parse round trip.
+        /// @prop C02 C08
+        /// @tier thorough
+        /// @feat default
+        /// @bound f32 powers of two, biased exponent 160..=175
+        /// @fn lexical-write-float::algorithm::compute_nearest_shorter[f32]
+        /// @fn lexical-write-float::algorithm::to_decimal
+        /// @mem 12
+        /// @timeout 3600
+        #[cfg_attr(kani, kani::unwind(24))]
+        fn roundtrip_pow2_f32_e160() {
+            let e: u32 = any();
+            let neg: bool = any();
+            assume(e >= 160 && e <= 175);
+            let r = roundtrip_f32(((neg as u32) << 31) | (e << 23));
+            vcheck!(r.is_ok(), "f32 power of two: write -> parse returns the identical bits");
+        }
+
+        /// f32 powers of two with biased exponent in 176..=191 (symbolic), both signs: write -> parse round trip.
+        /// @prop C02 C08
+        /// @tier thorough
+        /// @feat default
+        /// @bound f32 powers of two, biased exponent 176..=191
+        /// @fn lexical-write-float::algorithm::compute_nearest_shorter[f32]
+        /// @fn lexical-write-float::algorithm::to_decimal
+        /// @mem 12
+        /// @timeout 3600
+        #[cfg_attr(kani, kani::unwind(24))]
+        fn roundtrip_pow2_f32_e176() {
+            let e: u32 = any();
+            let neg: bool = any();
+            assume(e >= 176 && e <= 191);
+            let r = roundtrip_f32(((neg as u32) << 31) | (e << 23));
+            vcheck!(r.is_ok(), "f32 power of two: write -> parse returns the identical bits");
+        }
+
+        /// f32 powers of two with biased exponent in 192..=207 (symbolic), both signs: write -> parse round trip.
+        /// @prop C02 C08
+        /// @tier thorough
+        /// @feat default
+        /// @bound f32 powers of two, biased exponent 192..=207
+        /// @fn lexical-write-float::algorithm::compute_nearest_shorter[f32]
+        /// @fn lexical-write-float::algorithm::to_decimal
+        /// @mem 12
+        /// @timeout 3600
+        #[cfg_attr(kani, kani::unwind(24))]
+        fn roundtrip_pow2_f32_e192() {
+            let e: u32 = any();
+            let neg: bool = any();
+            assume(e >= 192 && e <= 207);
+            let r = roundtrip_f32(((neg as u32) << 31) | (e << 23));
+            vcheck!(r.is_ok(), "f32 power of two: write -> parse returns the identical bits");
+        }
+
+        /// f32 powers of two with biased exponent in 208..=223 (symbolic), both signs: write -> parse round trip.
+        /// @prop C02 C08
+        /// @tier thorough
+        /// @feat default
+        /// @bound f32 powers of two, biased exponent 208..=223
+        /// @fn lexical-write-float::algorithm::compute_nearest_shorter[f32]
+        /// @fn lexical-write-float::algorithm::to_decimal
+        /// @mem 12
+        /// @timeout 3600
+        #[cfg_attr(kani, kani::unwind(24))]
+        fn roundtrip_pow2_f32_e208() {
+            let e: u32 = any();
+            let neg: bool = any();
+            assume(e >= 208 && e <= 223);
+            let r = roundtrip_f32(((neg as u32) << 31) | (e << 23));
+            vcheck!(r.is_ok(), "f32 power of two: write -> parse returns the identical bits");
+        }
+
+        /// f32 powers of two with biased exponent in 224..=239 (symbolic), both signs: write -> parse round trip.
+        /// @prop C02 C08
+        /// @tier thorough
+        /// @feat default
+        /// @bound f32 powers of two, biased exponent 224..=239
+        /// @fn lexical-write-float::algorithm::compute_nearest_shorter[f32]
+        /// @fn lexical-write-float::algorithm::to_decimal
+        /// @mem 12
+        /// @timeout 3600
+        #[cfg_attr(kani, kani::unwind(24))]
+        fn roundtrip_pow2_f32_e224() {
+            let e: u32 = any();
+            let neg: bool = any();
+            assume(e >= 224 && e <= 239);
+            let r = roundtrip_f32(((neg as u32) << 31) | (e << 23));
+            vcheck!(r.is_ok(), "f32 power of two: write -> parse returns the identical bits");
+        }
+
+        /// f32 powers of two with biased exponent in 240..=254 (symbolic), both signs: write -> parse round trip.
+        /// @prop C02 C08
+        /// @tier thorough
+        /// @feat default
+        /// @bound f32 powers of two, biased exponent 240..=254
+        /// @fn lexical-write-float::algorithm::compute_nearest_shorter[f32]
+        /// @fn lexical-write-float::algorithm::to_decimal
+        /// @mem 12
+        /// @timeout 3600
+        #[cfg_attr(kani, kani::unwind(24))]
+        fn roundtrip_pow2_f32_e240() {
+            let e: u32 = any();
+            let neg: bool = any();
+            assume(e >= 240 && e <= 254);
+            let r = roundtrip_f32(((neg as u32) << 31) | (e << 23));
             vcheck!(r.is_ok(), "f32 power of two: write -> parse returns the identical bits");
         }
 
